@@ -928,6 +928,32 @@ def check_exhaustive(ck, R):
     ck.ob(R, dc.key(None, "members-have-strategy"), not miss2, "every return-type member has a strategy" if not miss2 else
           "ResultType members without a strategy: %s" % sorted(miss2), dc.where())
     unreturned = set(members) - arg_only - returned
+    if unreturned:
+        # a member picked by a computed name (`ResultType["array_" + str(dtype)]`, `getattr(ResultType, name)`): which members can be
+        # produced is then a fact about strings, not about the shape of the classifier
+        computed = []
+        for x in A.walk_body(fo.node):
+            pick = None
+            if isinstance(x, ast.Subscript) and isinstance(x.ctx, ast.Load) and A.dotted(x.value) == "ResultType":
+                pick = x.slice
+            elif isinstance(x, ast.Call) and isinstance(x.func, ast.Name) and x.func.id == "getattr" and len(x.args) >= 2 and A.dotted(x.args[0]) == "ResultType":
+                pick = x.args[1]
+            if pick is None:
+                continue
+            names_ = None
+            try:
+                vals_ = possible_values(fo, pick, (fo.nodes(x) or [None])[0])
+                if vals_ and all(A.const_str(v_) is not None for v_ in vals_):
+                    names_ = {A.const_str(v_) for v_ in vals_}
+            except (AnalysisError, SyntaxError, AttributeError, TypeError, IndexError, KeyError):
+                pass
+            if names_ is None:
+                computed.append(x)
+            else:
+                returned |= names_ & set(members)
+        unreturned = set(members) - arg_only - returned
+        ck.need(not (unreturned and computed), "from_object picks a ResultType member by a computed name (`%s`): the members it can produce are not evident"
+                % (A.short(computed[0], 50) if computed else ""))
     ck.ob(R, fo.key(None, "members-classified"), not unreturned, "every return-type member is produced by from_object" if not unreturned else
           "from_object never produces %s" % sorted(unreturned), fo.where())
     # strategy kinds: exception -> JSON exception strategy, null -> null strategy, partition -> partition strategy
@@ -1939,6 +1965,262 @@ class _Absent:
         return self.memo[k]
 
 
+def _pure_row_item(e):
+    if isinstance(e, (ast.Constant, ast.Name)):
+        return True
+    if isinstance(e, ast.Attribute):
+        return _pure_row_item(e.value)
+    if isinstance(e, (ast.Tuple, ast.List)):
+        return all(_pure_row_item(x) for x in e.elts)
+    return False
+
+
+def written_out(ck, cls, m, me):
+    """A view of method `m` in which (a) a loop over a literal display of rows made of names / attribute chains / constants is
+    written out row by row (no break / continue / else, the loop variables are not assigned in the body) and (b) a call of a
+    method of the class whose body is a single `return <expression>` stands as that expression with the arguments put in.
+    Both say the same thing as the original; rules that follow where keys come from then see the fields themselves."""
+    from ..loader import FuncInfo
+    node = copy.deepcopy(m.node)
+    changed = [False]
+
+    def stored_names(stmts):
+        return {n.id for st in stmts for n in ast.walk(st) if isinstance(n, ast.Name) and isinstance(n.ctx, (ast.Store, ast.Del))}
+
+    def unroll(stmts):
+        out = []
+        for st in stmts:
+            for fld in ("body", "orelse", "finalbody"):
+                if isinstance(getattr(st, fld, None), list) and getattr(st, fld) and isinstance(getattr(st, fld)[0], ast.stmt):
+                    setattr(st, fld, unroll(getattr(st, fld)))
+            for h in getattr(st, "handlers", []) or []:
+                h.body = unroll(h.body)
+            if isinstance(st, ast.For) and not st.orelse and isinstance(st.iter, (ast.Tuple, ast.List)) and 0 < len(st.iter.elts) <= 8 \
+                    and all(_pure_row_item(r) for r in st.iter.elts) \
+                    and not any(isinstance(n, (ast.Break, ast.Continue, ast.Yield, ast.YieldFrom)) for b in st.body for n in ast.walk(b)):
+                from .ladders import bind_target
+                envs = [bind_target(st.target, r) for r in st.iter.elts]
+                tnames = {n.id for n in ast.walk(st.target) if isinstance(n, ast.Name)}
+                if all(e is not None for e in envs) and not (tnames & stored_names(st.body)):
+                    for env in envs:
+                        for b in st.body:
+                            out.append(ast.copy_location(subst(b, env), b))
+                    changed[0] = True
+                    continue
+            out.append(st)
+        return out
+
+    node.body = unroll(node.body)
+
+    class Inl(ast.NodeTransformer):
+        def visit_Call(self, n):
+            self.generic_visit(n)
+            callee, off = _own_method(ck.repo, cls, n, me)
+            if callee is None or callee.qual == m.qual or n.keywords or any(isinstance(a, ast.Starred) for a in n.args):
+                return n
+            a = callee.node.args
+            body = [st for st in callee.node.body if not (isinstance(st, ast.Expr) and isinstance(st.value, ast.Constant))]
+            if len(body) == 1 and isinstance(body[0], ast.For) and not body[0].orelse and len(body[0].body) == 1:
+                # a generator that filters one iterable: `for x in IT: [if C:] yield E`  ==  (E for x in IT [if C])
+                inner, conds = body[0].body[0], []
+                while isinstance(inner, ast.If) and not inner.orelse and len(inner.body) == 1:
+                    conds.append(inner.test)
+                    inner = inner.body[0]
+                if isinstance(inner, ast.Expr) and isinstance(inner.value, ast.Yield) and inner.value.value is not None \
+                        and not any(isinstance(x, (ast.Yield, ast.YieldFrom)) for c_ in conds for x in ast.walk(c_)):
+                    gen = ast.GeneratorExp(elt=inner.value.value, generators=[ast.comprehension(target=body[0].target, iter=body[0].iter, ifs=conds, is_async=0)])
+                    body = [ast.Return(value=gen)]
+            if len(body) != 1 or not isinstance(body[0], ast.Return) or body[0].value is None or a.vararg or a.kwarg or a.kwonlyargs:
+                return n
+            if callee.node.decorator_list and not callee.is_static and not callee.is_classmethod:
+                return n
+            params = callee.params[off:]
+            if len(params) != len(n.args):
+                return n
+            expr = body[0].value
+            bound = {x.id for x in ast.walk(expr) if isinstance(x, ast.Name) and isinstance(x.ctx, ast.Store)}
+            free_in_args = {x.id for a_ in n.args for x in ast.walk(a_) if isinstance(x, ast.Name)}
+            if bound & (free_in_args | set(params)):
+                return n
+            env = dict(zip(params, n.args))
+            if off and callee.params and callee.params[0] != me:
+                env[callee.params[0]] = ast.Name(id=me, ctx=ast.Load())
+            changed[0] = True
+            return ast.copy_location(subst(expr, env), n)
+
+    node = Inl().visit(node)
+    if not changed[0]:
+        return m
+    ast.fix_missing_locations(node)
+    return FuncInfo(m.module, node, m.qual, cls=m.cls, parent=m.parent)
+
+
+def _forget_function_covers_slots(ck, R, cls, slots, dec):
+    """forget_function: for every slot the queries answer from, the keys taken out of the slot are the slot's OWN keys of the function.
+    A removal event of slot S is `self.S.pop(k) / del self.S[k]` or a method of the class that (by `_Absent`) leaves S without its
+    argument; it *covers* S when the key is enumerated from S itself (through any comprehension / copy / union / local list) or from
+    a per-function index, and no test on another answering slot stands between the enumeration and the removal.  Keys enumerated
+    from a different slot cover only what the two slots share: an entry held by S alone survives the forget."""
+    from .cache_model import CacheModel, self_attr
+    from .c06 import ForgetScope
+    m = cls.methods.get("forget_function")
+    ck.need(m is not None, "MemoryCache.forget_function not found")
+    cm = CacheModel(ck)
+    me = m.params[0] if (m.params and not m.is_static) else "self"
+    ck.need(me == "self", "MemoryCache.forget_function: receiver is not called self")
+    m = written_out(ck, cls, m, me)
+    fa = FA(ck, m)
+    state = {x for x in (cm.map, cm.queue, cm.refs, cm.counter, cm.budget) if x}
+    for slot in sorted(slots):
+        if slot == cm.queue:
+            # the recency queue orders resident keys (a membership test on it in a helper of the queries is bookkeeping, not an
+            # answer); that it lists resident keys only, and is swept with them, is C06's subject
+            continue
+        events = []     # (key expression, site)
+        for n in A.walk_body(m.node):
+            if isinstance(n, ast.Call):
+                recv, nm = A.call_recv(n), A.call_attr(n)
+                if recv is not None and isinstance(recv, ast.Attribute) and _slot_expr(recv, me) == slot and nm in _REMOVERS and n.args:
+                    events.append((n.args[0], n))
+                    continue
+                callee, off = _own_method(ck.repo, cls, n, me)
+                if callee is not None and callee.qual != m.qual:
+                    for i, a in enumerate(n.args):
+                        if isinstance(a, ast.Starred) or i + off >= len(callee.params):
+                            continue
+                        if dec.decide(callee, slot, callee.params[i + off], False, 1)[0]:
+                            events.append((a, n))
+                            break
+            elif isinstance(n, ast.Delete):
+                for t in n.targets:
+                    if isinstance(t, ast.Subscript) and _slot_expr(t.value, me) == slot and isinstance(t.value, ast.Attribute):
+                        events.append((t.slice, n))
+        rebuilt = [st for st in fa.stmts((ast.Assign, ast.AnnAssign, ast.AugAssign))
+                   if any(_slot_expr(t, me) == slot and isinstance(t, ast.Attribute) for t in (st.targets if isinstance(st, ast.Assign) else [st.target]))]
+        ck.need(events or not rebuilt, "MemoryCache.forget_function rebuilds self.%s wholesale (`%s`): not followed" % (slot, A.short(rebuilt[0], 50) if rebuilt else ""))
+        covering, why_not = [], None
+        for (k, site) in events:
+            ids = fa.nodes(site)
+            if not ids:
+                continue
+            sc = ForgetScope(fa, cm)
+            from .c06 import _comprehension_env
+            for i in ids:
+                env = _comprehension_env(fa, k)
+                q = site
+                while q is not None and not isinstance(q, ast.stmt):
+                    if isinstance(q, (ast.ListComp, ast.SetComp, ast.GeneratorExp, ast.DictComp)):
+                        for g in q.generators:
+                            for cnd in g.ifs:
+                                sc.filters.append((cnd, i, set(env)))
+                    q = fa.pm.get(q)
+                sc.trace(k, i, env)
+            # the branch conditions under which the removal is reached (a DNF): the removal is narrowed by another slot only when
+            # EVERY way of reaching it passes a test on that slot (`if not ref_list and not evict_list: return` leaves the way
+            # "there is something selected from this slot" open)
+            path_narrow = None
+            for i in ids:
+                per_conj = []
+                for conj in (fa.conditions(i) or [frozenset()]):
+                    hit = None
+                    for (t_, p_) in conj:
+                        try:
+                            e_ = _parse(t_)
+                        except SyntaxError:
+                            continue
+                        o_ = sorted({self_attr(x) for x in ast.walk(e_) if self_attr(x) in slots and self_attr(x) != slot})
+                        if o_:
+                            hit = (t_, o_[0])
+                            break
+                    per_conj.append(hit)
+                if per_conj and all(h is not None for h in per_conj):
+                    path_narrow = per_conj[0]
+            index = sorted(f for f in sc.fields if f not in state and f not in slots)
+            if slot not in sc.fields and not index:
+                unfollowed = [x for x in sc.other if isinstance(x, ast.Call) and _own_method(ck.repo, cls, x, me)[0] is not None]
+                ck.need(not unfollowed, "MemoryCache.forget_function: the keys removed from self.%s come out of `%s`, which is not followed"
+                        % (slot, A.short(unfollowed[0], 50) if unfollowed else ""))
+                src = ", ".join("self." + f for f in sorted(sc.fields)) or ("`%s`" % A.short(sc.other[0], 40) if sc.other and sc.other[0] is not None else "something else")
+                why_not = why_not or (site, "the keys it removes from self.%s (`%s`) are enumerated from %s, not from self.%s: an entry that only self.%s holds "
+                                            "(a result too large for the cache, or one whose cache entry was pushed out, lives on in the weak references alone) "
+                                            "is never selected" % (slot, A.short(site, 40), src, slot, slot))
+                continue
+            narrowed = None
+            for flt in sc.filters:
+                c0 = flt[0]
+                try:
+                    e0 = _parse(c0) if isinstance(c0, str) else (c0 if isinstance(c0, ast.Lambda) else fa.expand(c0, flt[1]))
+                except (SyntaxError, AnalysisError, Exception):
+                    e0 = c0 if not isinstance(c0, str) else None
+                if e0 is None:
+                    continue
+                others = {self_attr(x) for x in ast.walk(e0) if self_attr(x) in slots and self_attr(x) != slot}
+                if others:
+                    narrowed = (c0 if isinstance(c0, str) else A.short(c0, 50), sorted(others)[0])
+                    break
+            narrowed = narrowed or path_narrow
+            if narrowed:
+                why_not = why_not or (site, "whether a key is removed from self.%s depends on self.%s (`%s`): an entry that only self.%s holds survives"
+                                            % (slot, narrowed[1], narrowed[0], slot))
+                continue
+            if sc.partial:
+                why_not = why_not or (site, "only `%s` -- some of the selected keys, picked by position -- is removed from self.%s" % (A.short(sc.partial[0], 40), slot))
+                continue
+            # the statement that performs the sweep: the outermost loop around the removal (the loop body may run zero times)
+            top = site
+            q = fa.pm.get(site)
+            while q is not None and q is not m.node:
+                if isinstance(q, (ast.For, ast.While, ast.AsyncFor)):
+                    top = q
+                q = fa.pm.get(q)
+            covering += fa.nodes(top if top is not site else (fa.stmt_of(site) or site))
+        def selected_from_slot(txt, pol, slot=slot, at=(covering or [fa.cfg.entry])[0]):
+            """the branch literal says: the collection of this slot's keys selected for the function is empty (nothing to sweep)"""
+            try:
+                e = _parse(txt)
+            except SyntaxError:
+                return False
+            if isinstance(e, ast.Compare) and len(e.ops) == 1 and isinstance(e.comparators[0], ast.Constant) and e.comparators[0].value == 0 \
+                    and e.comparators[0].value is not False:
+                if (isinstance(e.ops[0], ast.Eq) and pol) or (isinstance(e.ops[0], ast.Gt) and not pol):
+                    e, pol = e.left, False
+                else:
+                    return False
+            if pol:
+                return False
+            if isinstance(e, ast.Call) and isinstance(e.func, ast.Name) and e.func.id == "len" and len(e.args) == 1:
+                e = e.args[0]
+            sc = ForgetScope(fa, cm)
+            sc.trace(copy.deepcopy(e), at)
+            if slot not in sc.fields and not [f for f in sc.fields if f not in state and f not in slots]:
+                return False
+            for flt in sc.filters:
+                c0 = flt[0]
+                if isinstance(c0, ast.AST) and any(self_attr(x) in slots and self_attr(x) != slot for x in ast.walk(c0)):
+                    return False
+            return not sc.partial
+
+        from .cache_model import branch_filter
+        edge_ok = branch_filter(fa, selected_from_slot)
+        ok = bool(covering) and fa.cfg.must_pass(covering, fa.cfg.exit, edge_ok=edge_ok)
+        origin = slots[slot][0]
+        if ok:
+            msg = "forget_function sweeps self.%s (from which %s answers) over its own keys of the function on every path" % (slot, origin)
+            at = fa.where()
+        else:
+            if why_not is not None:
+                detail, at = why_not[1], fa.where(why_not[0])
+            elif not events:
+                detail, at = "it removes nothing from self.%s" % slot, fa.where()
+            else:
+                wit = fa.cfg.path(fa.cfg.entry, fa.cfg.exit, removed=covering, edge_ok=edge_ok)
+                detail, at = "it can return (path %s) without sweeping self.%s" % (fa.cfg.describe_path(wit) if wit else "?", slot), fa.where()
+            msg = ("forget_function leaves entries of the forgotten function in self.%s, from which %s answers: %s. After forget_all() the cache still "
+                   "reports such a call as memoized (the re-computed result is then never stored and the body runs on every later call) or serves the "
+                   "forgotten value" % (slot, origin, detail))
+        ck.ob(R, fa.key(None, "function-sweep-covers:" + slot), ok, msg, at)
+
+
 def check_forget_reaches_answers(ck, R):
     ck.rule(R, "forgetting reaches every place that can still answer 'memoized': on every normal path the cache's forget_call / "
                "forget_everything leave none of the slots its queries answer from holding the key, and the backend's forget "
@@ -1962,6 +2244,7 @@ def check_forget_reaches_answers(ck, R):
                   "%s can return (path %s) while self.%s still holds %s, and %s answers from self.%s: after forgetting, the cache still reports the "
                   "call as memoized (the re-computed result is then never stored and the body runs on every later call) or serves the forgotten value"
                   % (name, fa.cfg.describe_path(wit) if wit else "?", slot, "entries" if keyless else "the key of the forgotten call", origin, slot), fa.where())
+    ck.run(_forget_function_covers_slots, ck, R, cls, slots, dec)
     # the backend: every source is_memoized consults is told to forget
     bq = "storage_base.StorageBackendBase"
     bcls = ck.repo.cls(bq)
@@ -2356,6 +2639,615 @@ def _delivered_through_generic_helper(ck, bcls, fa, name, src, explicit, me):
     return False
 
 
+# ---------------------------------------------------------------------------------------------
+# C02.R11  "same class when it can be rebuilt": the name from_exception writes is read back whole
+#
+# from_exception writes `<language>::<module>:<qualified class name>` from a template; to_exception takes the
+# fields out again with a pattern.  A field that the pattern's group cannot hold in full is cut (match() is a
+# prefix match) or refused, and the replay then resolves another class (the outer one of a nested class) or
+# none.  Decided on the pattern's parse tree, never by matching: for the k-th field of the template, every
+# character the field's source can contain (a module path: identifier characters and dots; a qualified class
+# name: identifier characters and dots, which the reader itself splits on) must be accepted by some item inside
+# the k-th group the reader takes out.  A reader that is not a pattern (partition / split) rejects no character.
+# ---------------------------------------------------------------------------------------------
+_IDENT_SAMPLE = ("a", "Z", "0", "_", "é")
+
+
+def _field_alphabet(fa, e, at):
+    """Characters (a representative sample) that a written field can contain, from what it is computed from."""
+    if isinstance(e, ast.Constant) and isinstance(e.value, str):
+        return tuple(sorted(set(e.value))), "the constant %r" % e.value, "const"
+    try:
+        x = fa.expand(e, at)
+    except AnalysisError:
+        x = e
+    if isinstance(x, ast.Constant) and isinstance(x.value, str):
+        return tuple(sorted(set(x.value))), "the constant %r" % x.value, "const"
+    attrs = {n.attr for n in ast.walk(x) if isinstance(n, ast.Attribute)}
+    attrs |= {A.const_str(n.args[1]) for n in ast.walk(x) if isinstance(n, ast.Call) and isinstance(n.func, ast.Name) and n.func.id == "getattr" and len(n.args) >= 2}
+    if "__qualname__" in attrs:
+        return _IDENT_SAMPLE + (".",), "a qualified class name (`Outer.Inner` for a nested class)", "class"
+    if "__module__" in attrs:
+        return _IDENT_SAMPLE + (".",), "a dotted module path", "module"
+    if "__name__" in attrs:
+        return _IDENT_SAMPLE, "an identifier", "class"
+    return None, None, None
+
+
+def _sre_accepts(items, ch):
+    """Can character `ch` be consumed by some item of this parsed (sub)pattern?  Over-approximates (any item anywhere)."""
+    import re._constants as C
+    o = ord(ch)
+
+    def in_class(av):
+        neg = bool(av) and av[0][0] is C.NEGATE
+        hit = False
+        for (op, a) in av:
+            if op is C.LITERAL and a == o:
+                hit = True
+            elif op is C.RANGE and a[0] <= o <= a[1]:
+                hit = True
+            elif op is C.CATEGORY:
+                word, digit, space = (ch.isalnum() or ch == "_"), ch.isdigit(), ch.isspace()
+                hit = hit or {C.CATEGORY_WORD: word, C.CATEGORY_NOT_WORD: not word, C.CATEGORY_DIGIT: digit, C.CATEGORY_NOT_DIGIT: not digit,
+                              C.CATEGORY_SPACE: space, C.CATEGORY_NOT_SPACE: not space}.get(a, True)
+        return hit != neg
+
+    for (op, av) in items:
+        if op is C.ANY:
+            if ch != "\n":
+                return True
+        elif op is C.LITERAL:
+            if av == o:
+                return True
+        elif op is C.NOT_LITERAL:
+            if av != o:
+                return True
+        elif op is C.IN:
+            if in_class(av):
+                return True
+        elif op in (C.MAX_REPEAT, C.MIN_REPEAT) or getattr(C, "POSSESSIVE_REPEAT", None) is op:
+            if _sre_accepts(av[2], ch):
+                return True
+        elif op is C.SUBPATTERN:
+            if _sre_accepts(av[3], ch):
+                return True
+        elif op is C.BRANCH:
+            if any(_sre_accepts(b, ch) for b in av[1]):
+                return True
+        elif getattr(C, "ATOMIC_GROUP", None) is op:
+            if _sre_accepts(av, ch):
+                return True
+        elif op in (C.AT, C.ASSERT, C.ASSERT_NOT):
+            continue
+        elif op in (C.GROUPREF, C.GROUPREF_EXISTS):
+            return True  # not modelled: assume it can
+    return False
+
+
+def _sre_group(tree, gid):
+    import re._constants as C
+    found = []
+
+    def walk(seq):
+        for (op, av) in seq:
+            if op is C.SUBPATTERN:
+                if av[0] == gid:
+                    found.append(av[3])
+                walk(av[3])
+            elif op in (C.MAX_REPEAT, C.MIN_REPEAT) or getattr(C, "POSSESSIVE_REPEAT", None) is op:
+                walk(av[2])
+            elif op is C.BRANCH:
+                for b in av[1]:
+                    walk(b)
+            elif getattr(C, "ATOMIC_GROUP", None) is op:
+                walk(av)
+    walk(tree)
+    return found[0] if len(found) == 1 else None
+
+
+def _pattern_of(fa, e, nid):
+    """(pattern text, flags expression or None) of an expression that designates a pattern: a literal, a module constant,
+    `re.compile(<that>)`, through locals."""
+    seen = 0
+    flags = None
+    while seen < 8:
+        seen += 1
+        if isinstance(e, ast.Name):
+            if fa.df.is_local(e.id):
+                try:
+                    x = fa.expand(e, nid)
+                except AnalysisError:
+                    return None, None
+                if isinstance(x, ast.Name) and x.id == e.id:
+                    return None, None
+                e = x
+                continue
+            v = fa.fi.module.assigns.get(e.id)
+            if v is None:
+                return None, None
+            e = v
+            continue
+        if isinstance(e, ast.Call) and A.call_attr(e) == "compile" and e.args:
+            flags = e.args[1] if len(e.args) > 1 else next((k.value for k in e.keywords if k.arg == "flags"), None)
+            e = e.args[0]
+            continue
+        s = A.const_str(e)
+        if s is None:
+            parts = A.str_parts(e)
+            if parts is not None and all(k == "lit" for (k, _v) in parts):
+                s = "".join(v for (_k, v) in parts)
+        return s, flags
+    return None, None
+
+
+def _format_fields(fa, e):
+    """[('lit', text) | ('expr', node)] of `<template>.format(...)` whose template is a constant (also a module-level one) and whose
+    fields may reach into their argument (`{cls.__module__}`, `{0.__qualname__}`); None for anything else."""
+    import string
+    if not (isinstance(e, ast.Call) and isinstance(e.func, ast.Attribute) and e.func.attr == "format"):
+        return None
+    t = e.func.value
+    if isinstance(t, ast.Name) and not fa.df.is_local(t.id):
+        t = fa.fi.module.assigns.get(t.id)
+    fmt = A.const_str(t) if t is not None else None
+    if fmt is None or any(isinstance(a, ast.Starred) for a in e.args) or any(k.arg is None for k in e.keywords):
+        return None
+    out, auto = [], 0
+    try:
+        pieces = list(string.Formatter().parse(fmt))
+    except ValueError:
+        return None
+    for (lit, field, spec, conv) in pieces:
+        if lit:
+            out.append(("lit", lit))
+        if field is None:
+            continue
+        if spec or conv not in (None, "s"):
+            return None
+        head = field.split(".")[0].split("[")[0]
+        rest = field[len(head):]
+        if head == "":
+            idx, auto = auto, auto + 1
+            base = e.args[idx] if idx < len(e.args) else None
+        elif head.isdigit():
+            base = e.args[int(head)] if int(head) < len(e.args) else None
+        else:
+            base = next((k.value for k in e.keywords if k.arg == head), None)
+        if base is None or "[" in rest:
+            return None
+        x = copy.deepcopy(base)
+        for attr in [a for a in rest.split(".") if a]:
+            if not attr.isidentifier():
+                return None
+            x = ast.Attribute(value=x, attr=attr, ctx=ast.Load())
+        out.append(("expr", x))
+    return out
+
+
+def check_exception_name_roundtrip(ck, R):
+    ck.rule(R, "the exception name from_exception writes (language::module:qualified class name) is read back whole by to_exception: every "
+               "character a written field can contain is accepted by the group of the reader's pattern that takes that field out", 2)
+    import re._parser as sre_parse
+    fe = FA(ck, "exception.MementoException.from_exception")
+    mk = fe.one(fe.calls("MementoException"), "MementoException(...) in from_exception")
+    a_name = A.arg_or_kw(mk, 0, "exception_name")
+    ck.need(a_name is not None, "from_exception: no exception name is passed")
+    tmpl, tat = follow_value(fe, a_name, (fe.nodes(mk) or [None])[0])
+    parts = A.str_parts(tmpl)
+    if parts is None:
+        parts = _format_fields(fe, tmpl)
+    ck.need(parts is not None, "from_exception: the exception name is not built from a template")
+    fields = [(v, tat) for (k, v) in parts if k == "expr"]
+    ck.need(fields, "from_exception: the exception name has no computed field")
+    tx = FA(ck, "exception.MementoException.to_exception")
+    me = (tx.fi.params or ["self"])[0]
+    uses = []
+    for c in tx.calls():
+        nm = A.call_attr(c)
+        if nm not in ("match", "fullmatch", "search") or not tx.nodes(c):
+            continue
+        recv = A.call_recv(c)
+        if isinstance(recv, ast.Name) and recv.id == "re" and not tx.df.is_local("re"):
+            if len(c.args) < 2:
+                continue
+            pe, subject, fl = c.args[0], c.args[1], (c.args[2] if len(c.args) > 2 else next((k.value for k in c.keywords if k.arg == "flags"), None))
+        elif recv is not None and c.args:
+            pe, subject, fl = recv, c.args[0], None
+        else:
+            continue
+        try:
+            if ("attr:%s.exception_name" % me) not in tx.deps(subject, tx.nodes(c)[0]):
+                continue
+        except AnalysisError:
+            continue
+        uses.append((c, pe, fl))
+    if not uses:
+        regexy = [c for c in tx.calls() if isinstance(A.call_recv(c), ast.Name) and A.call_recv(c).id == "re"]
+        ck.need(not regexy, "to_exception: a use of `re` on something other than the exception name is not followed")
+        ck.ob(R, tx.key(None, "name-fields-read-whole"), True, "to_exception does not take the name apart with a pattern: no character of a field is refused", tx.where())
+        return
+    for (c, pe, fl) in uses:
+        nid = tx.nodes(c)[0]
+        pat, fl2 = _pattern_of(tx, pe, nid)
+        ck.need(pat is not None, "to_exception: the pattern `%s` is not a constant" % A.short(pe, 50))
+        fl = fl if fl is not None else fl2
+        flags = 0
+        if fl is not None:
+            import re as _re
+            for n in ast.walk(fl):
+                nm = n.attr if isinstance(n, ast.Attribute) else (n.id if isinstance(n, ast.Name) else None)
+                if nm and nm != "re":
+                    ck.need(isinstance(getattr(_re, nm, None), _re.RegexFlag), "to_exception: pattern flags `%s` not understood" % A.short(fl, 40))
+                    flags |= int(getattr(_re, nm))
+        try:
+            tree = sre_parse.parse(pat, flags)
+        except Exception as e:
+            raise AnalysisError("to_exception: the pattern %r does not parse (%s)" % (pat, e))
+        ngroups = tree.state.groups - 1
+        names = dict(tree.state.groupdict)
+        # the groups the reader takes out: m.group(i) / m[i] / m.group('name') on the match, or all of them (m.groups())
+        mvars = set()
+        st = tx.stmt_of(c)
+        if isinstance(st, ast.Assign):
+            mvars = {t.id for t in st.targets if isinstance(t, ast.Name)}
+        for n in A.walk_body(tx.node):
+            if isinstance(n, ast.NamedExpr) and n.value is c and isinstance(n.target, ast.Name):
+                mvars.add(n.target.id)
+        read = set()
+        everything = False
+        for n in A.walk_body(tx.node):
+            base = g = None
+            if isinstance(n, ast.Call) and A.call_attr(n) == "group" and n.args:
+                base, gs = A.call_recv(n), list(n.args)
+            elif isinstance(n, ast.Subscript) and isinstance(n.ctx, ast.Load):
+                base, gs = n.value, [n.slice]
+            elif isinstance(n, ast.Call) and A.call_attr(n) in ("groups", "groupdict"):
+                base, gs = A.call_recv(n), []
+                if base is c or (isinstance(base, ast.Name) and base.id in mvars):
+                    everything = True
+                continue
+            else:
+                continue
+            if not (base is c or (isinstance(base, ast.Name) and base.id in mvars)):
+                continue
+            for g in gs:
+                if isinstance(g, ast.Constant) and isinstance(g.value, int) and not isinstance(g.value, bool):
+                    if g.value:
+                        read.add(g.value)
+                elif A.const_str(g) in names:
+                    read.add(names[A.const_str(g)])
+                else:
+                    everything = True
+        if everything or not read:
+            read = set(range(1, ngroups + 1))
+        order = sorted(read)
+
+        def groups_reaching(exprs):
+            """the groups whose text flows into one of these expressions (a group is designated by its number / name)"""
+            out = set()
+
+            def group_list(v, at_, depth=0):
+                """the groups a sequence-valued expression holds, in order: `m.groups()`, `m.group(2, 3)`, a display of single
+                groups, a conditional that otherwise gives Nones, or a local that stands for one of those; else None"""
+                if isinstance(v, ast.Call) and A.call_attr(v) == "groups" and not v.args:
+                    return list(range(1, ngroups + 1))
+                if isinstance(v, ast.Call) and A.call_attr(v) == "group" and len(v.args) >= 2:
+                    out_ = []
+                    for g_ in v.args:
+                        if isinstance(g_, ast.Constant) and isinstance(g_.value, int) and not isinstance(g_.value, bool):
+                            out_.append(g_.value)
+                        elif A.const_str(g_) in names:
+                            out_.append(names[A.const_str(g_)])
+                        else:
+                            return None
+                    return out_
+                if isinstance(v, (ast.Tuple, ast.List)):
+                    if all(A.is_none(x_) for x_ in v.elts):
+                        return []
+                    out_ = []
+                    for x_ in v.elts:
+                        g_ = None
+                        if isinstance(x_, ast.Call) and A.call_attr(x_) == "group" and len(x_.args) == 1:
+                            g_ = x_.args[0]
+                        elif isinstance(x_, ast.Subscript):
+                            g_ = x_.slice
+                        if isinstance(g_, ast.Constant) and isinstance(g_.value, int) and not isinstance(g_.value, bool):
+                            out_.append(g_.value)
+                        elif g_ is not None and A.const_str(g_) in names:
+                            out_.append(names[A.const_str(g_)])
+                        else:
+                            return None
+                    return out_
+                if isinstance(v, ast.IfExp):
+                    alts = [group_list(v.body, at_, depth + 1), group_list(v.orelse, at_, depth + 1)]
+                    alts = [a_ for a_ in alts if a_ != []]
+                    return alts[0] if alts and all(a_ is not None and a_ == alts[0] for a_ in alts) else None
+                if isinstance(v, ast.Name) and depth < 4 and at_ is not None and at_ >= 0:
+                    alts = [group_list(d.value, d.node, depth + 1) for d in tx.df.reaching(at_, v.id) if not (d.value is None or A.is_none(d.value))]
+                    alts = [a_ for a_ in alts if a_ != []]
+                    return alts[0] if alts and all(a_ is not None and a_ == alts[0] for a_ in alts) else None
+                return None
+
+            def unpacked(x, at_, depth=0):
+                """`language, module, name = m.groups()`: the i-th name stands for the i-th group of the sequence"""
+                if depth > 6:
+                    return
+                for y in ast.walk(x):     # a single group named on the spot: m.group(2), m["module"]
+                    g_ = None
+                    if isinstance(y, ast.Call) and A.call_attr(y) == "group" and len(y.args) == 1:
+                        g_ = y.args[0]
+                    elif isinstance(y, ast.Subscript) and isinstance(y.ctx, ast.Load) and isinstance(y.value, ast.Name) and y.value.id in mvars:
+                        g_ = y.slice
+                    if isinstance(g_, ast.Constant) and isinstance(g_.value, int) and not isinstance(g_.value, bool) and g_.value in read:
+                        out.add(g_.value)
+                    elif g_ is not None and names.get(A.const_str(g_)) in read:
+                        out.add(names[A.const_str(g_)])
+                for nm_ in [y for y in ast.walk(x) if isinstance(y, ast.Name) and isinstance(y.ctx, ast.Load) and tx.df.is_local(y.id)]:
+                    for d in tx.df.reaching(at_, nm_.id):
+                        st_ = getattr(d, "stmt", None)
+                        gl = group_list(st_.value, d.node) if (d.kind == "unpack" and isinstance(st_, ast.Assign)) else None
+                        if gl:
+                            for t in st_.targets:
+                                if isinstance(t, (ast.Tuple, ast.List)):
+                                    for i_, el in enumerate(t.elts):
+                                        if isinstance(el, ast.Name) and el.id == nm_.id and i_ < len(gl) and gl[i_] in read:
+                                            out.add(gl[i_])
+                        elif d.value is not None and d.node is not None and d.node >= 0 and d.kind in ("assign", "for", "aug"):
+                            unpacked(d.value, d.node, depth + 1)
+
+            for (x, at_) in exprs:
+                before = len(out)
+                unpacked(x, at_)
+                if len(out) > before:
+                    continue     # followed precisely; the coarse dependency atoms below are the fallback
+                try:
+                    ds = tx.deps(x, at_)
+                except AnalysisError:
+                    continue
+                for d in ds:
+                    if d.startswith("const:"):
+                        try:
+                            v = ast.literal_eval(d[6:])
+                        except (ValueError, SyntaxError):
+                            continue
+                        if isinstance(v, int) and not isinstance(v, bool) and v in read:
+                            out.add(v)
+                        elif isinstance(v, str) and names.get(v) in read:
+                            out.add(names[v])
+            return out
+
+        imported, looked_up = [], []
+        for c2 in tx.calls():
+            nm2 = A.call_attr(c2)
+            if not tx.nodes(c2):
+                continue
+            if nm2 in ("import_module", "__import__") and c2.args:
+                imported.append((c2.args[0], tx.nodes(c2)[0]))
+            elif nm2 == "getattr" and isinstance(c2.func, ast.Name) and len(c2.args) >= 2:
+                looked_up.append((c2.args[1], tx.nodes(c2)[0]))
+            elif nm2 == "attrgetter" and c2.args:
+                looked_up.append((c2.args[0], tx.nodes(c2)[0]))
+            elif nm2 == "reduce" and len(c2.args) >= 2 and isinstance(c2.args[0], ast.Name) and c2.args[0].id == "getattr":
+                looked_up.append((c2.args[1], tx.nodes(c2)[0]))
+        by_role = {"module": groups_reaching(imported), "class": groups_reaching(looked_up) - groups_reaching(imported)}
+        for k, (fexpr, fat) in enumerate(fields):
+            alpha, what, role = _field_alphabet(fe, fexpr, fat)
+            if alpha is None:
+                continue
+            cand = by_role.get(role) or set()
+            if len(cand) == 1:
+                gid = next(iter(cand))       # by what the reader does with the group: imports it / looks it up in the module
+            else:
+                ck.need(len(order) == len(fields), "to_exception: which group of the pattern takes out field %d (`%s`) of the written name is not evident"
+                        % (k + 1, A.short(fexpr, 40)))
+                gid = order[k]
+            sub = _sre_group(tree, gid)
+            ck.need(sub is not None, "to_exception: group %d of the pattern not found exactly once" % gid)
+            refused = [ch for ch in alpha if not _sre_accepts(sub, ch)]
+            ok = not refused
+            ck.ob(R, tx.key(None, "name-field-%d-read-whole" % (k + 1)), ok,
+                  "group %d of the name pattern accepts every character of field %d (%s)" % (gid, k + 1, what) if ok else
+                  "group %d of the name pattern %r cannot hold %s: field %d of the written name is `%s`, %s. The reader cuts the field at that character "
+                  "(or refuses the name), so the replay resolves another class -- the enclosing class of a nested exception class -- or none, and raises "
+                  "it instead of the recorded class" % (gid, pat, ", ".join(repr(ch) for ch in refused), k + 1, A.short(fexpr, 40), what), tx.where(c))
+
+
+
+# ---------------------------------------------------------------------------------------------
+# C02.R9  run-once needs ONE mutex per invocation for as long as anybody may still be using it
+#
+# Callers of one invocation serialise on the mutex the table hands out for (qualified name, argument hash).  If the
+# entry can leave the table while a caller that has looked it up is still waiting on it or running under it, the next
+# caller is handed a fresh mutex, does not wait, and runs the body side by side with the other one.
+# The table is located by role (the module-level mapping of runner_local whose values are, or hold, locks).  An entry
+# never leaving is the simplest way to satisfy the clause.  A keyed removal is accepted only under the protocol that
+# makes it safe: users are COUNTED WHILE THE TABLE LOCK IS HELD -- every critical section of the table lock in which
+# an entry is looked up / created also increments the entry's counter before the lock is given back, and the removal
+# sits in a critical section of the table lock that decrements that counter and is reached only when it is zero.
+# (A counter kept under the per-call mutex itself sees only the owner, not the callers queued on the mutex.)
+# ---------------------------------------------------------------------------------------------
+_LOCK_MAKERS = ("RLock", "Lock", "Semaphore", "BoundedSemaphore", "Condition")
+_MAPPING_MAKERS = ("defaultdict", "dict", "OrderedDict", "WeakValueDictionary", "WeakKeyDictionary")
+
+
+def _makes_lock(repo, mod, e, depth=0):
+    for c in ast.walk(e):
+        if not isinstance(c, ast.Call):
+            continue
+        nm = A.call_attr(c)
+        if nm in _LOCK_MAKERS:
+            return True
+        if depth < 2 and isinstance(c.func, ast.Name) and c.func.id in mod.classes:
+            if any(_makes_lock(repo, mod, st, depth + 1) for st in mod.classes[c.func.id].node.body):
+                return True
+    return False
+
+
+def invocation_mutex_table(ck, mod):
+    """(table name, names of the module's lock objects)"""
+    tables = []
+    for name, v in mod.assigns.items():
+        head = A.call_attr(v) if isinstance(v, ast.Call) else ("dict" if isinstance(v, ast.Dict) else None)
+        if head not in _MAPPING_MAKERS:
+            continue
+        locky = _makes_lock(ck.repo, mod, v)
+        if not locky and isinstance(v, ast.Call) and head == "defaultdict" and v.args:
+            # the factory given by name: defaultdict(RLock), defaultdict(_InvocationMutex)
+            f0 = v.args[0]
+            locky = _makes_lock(ck.repo, mod, ast.Call(func=f0, args=[], keywords=[]))
+        if not locky:
+            for fi in mod.all_funcs():
+                def stored_lock(val, fi=fi):
+                    if _makes_lock(ck.repo, mod, val):
+                        return True
+                    if isinstance(val, ast.Name):   # `m = RLock()` ... `TABLE[k] = m`
+                        return any(isinstance(a, ast.Assign) and any(isinstance(t, ast.Name) and t.id == val.id for t in a.targets)
+                                   and _makes_lock(ck.repo, mod, a.value) for a in A.walk_body(fi.node))
+                    return False
+                for n in A.walk_body(fi.node):
+                    if isinstance(n, ast.Assign) and any(isinstance(t, ast.Subscript) and isinstance(t.value, ast.Name) and t.value.id == name for t in n.targets) \
+                            and stored_lock(n.value):
+                        locky = True
+                    elif isinstance(n, ast.Call) and A.call_attr(n) == "setdefault" and isinstance(A.call_recv(n), ast.Name) and A.call_recv(n).id == name \
+                            and len(n.args) == 2 and stored_lock(n.args[1]):
+                        locky = True
+        if locky:
+            tables.append(name)
+    ck.need(len(tables) == 1, "runner_local: the table of per-invocation mutexes is not evident (module-level mappings holding locks: %s)" % (tables or "none"))
+    locks = {name for name, v in mod.assigns.items() if isinstance(v, ast.Call) and A.call_attr(v) in ("RLock", "Lock")}
+    return tables[0], locks
+
+
+def _zero_test_counter(text, pol):
+    """attribute name c when the literal (text, polarity) says `<entry>.c` is zero, else None"""
+    try:
+        e = _parse(text)
+    except SyntaxError:
+        return None
+    if isinstance(e, ast.UnaryOp) and isinstance(e.op, ast.Not):
+        e, pol = e.operand, not pol
+    if isinstance(e, ast.Attribute):
+        return e.attr if not pol else None
+    if isinstance(e, ast.Compare) and len(e.ops) == 1:
+        l, op, r = e.left, e.ops[0], e.comparators[0]
+        if isinstance(l, ast.Constant) and isinstance(r, ast.Attribute):
+            mirror = {ast.Lt: ast.Gt, ast.Gt: ast.Lt, ast.LtE: ast.GtE, ast.GtE: ast.LtE}
+            l, r, op = r, l, mirror.get(type(op), type(op))()
+        if not (isinstance(l, ast.Attribute) and isinstance(r, ast.Constant) and isinstance(r.value, int) and not isinstance(r.value, bool)):
+            return None
+        v = r.value
+        zero_when_true = (isinstance(op, ast.Eq) and v == 0) or (isinstance(op, ast.LtE) and v == 0) or (isinstance(op, ast.Lt) and v == 1)
+        zero_when_false = (isinstance(op, ast.NotEq) and v == 0) or (isinstance(op, ast.Gt) and v == 0) or (isinstance(op, ast.GtE) and v == 1)
+        if (pol and zero_when_true) or (not pol and zero_when_false):
+            return l.attr
+    return None
+
+
+def _table_lock_with(fa, node, locks):
+    """the outermost `with <table lock>:` whose body contains `node`"""
+    out = None
+    q = fa.pm.get(node)
+    while q is not None:
+        if isinstance(q, (ast.With, ast.AsyncWith)) and any(isinstance(i.context_expr, ast.Name) and i.context_expr.id in locks for i in q.items):
+            out = q
+        q = fa.pm.get(q)
+    return out
+
+
+def _counted_removal(ck, mod, table, locks, fi, drop):
+    """None when the keyed removal `drop` follows the counted-users protocol, else what is wrong with it."""
+    fa = FA(ck, fi)
+    ids = fa.nodes(drop)
+    if not ids:
+        return None   # unreachable
+    region = _table_lock_with(fa, drop, locks)
+    if region is None:
+        return "the entry is removed without holding the table lock"
+    conds = fa.conditions(ids[0])
+    counters = None
+    for conj in (conds or [frozenset()]):
+        here = {c for c in (_zero_test_counter(t, p) for (t, p) in conj) if c}
+        counters = here if counters is None else (counters & here)
+    if not counters:
+        return "the removal is not reserved for the moment at which nobody uses the mutex (no count of its users is tested)"
+    for c in sorted(counters):
+        decs = [n for n in ast.walk(region) if isinstance(n, ast.AugAssign) and isinstance(n.op, ast.Sub) and isinstance(n.target, ast.Attribute) and n.target.attr == c]
+        dec_ids = fa.nodes_all(decs)
+        if not (dec_ids and fa.cfg.must_pass(dec_ids, ids[0])):
+            why = ("the count of users (`.%s`) is not given back in the critical section of the table lock that removes the entry: it is kept under the "
+                   "per-call mutex, so it only sees the caller that owns the mutex, not the callers that have looked it up and are queued on it" % c)
+            continue
+        # every hand-out of an entry registers the user before the table lock is given back
+        why = None
+        for fj in mod.all_funcs():
+            fb = FA(ck, fj) if fj is not fi else fa
+            for n in A.walk_body(fj.node):
+                site = None
+                if isinstance(n, ast.Subscript) and isinstance(n.value, ast.Name) and n.value.id == table and not isinstance(n.ctx, ast.Del):
+                    site = n
+                elif isinstance(n, ast.Call) and A.call_attr(n) in ("get", "setdefault", "__getitem__") and isinstance(A.call_recv(n), ast.Name) and A.call_recv(n).id == table:
+                    site = n
+                if site is None or not fb.nodes(site):
+                    continue
+                w = _table_lock_with(fb, site, locks)
+                if w is not None and w is region:
+                    continue   # the releasing section looking at its own entry
+                incs = [x for x in (ast.walk(w) if w is not None else []) if isinstance(x, ast.AugAssign) and isinstance(x.op, ast.Add)
+                        and isinstance(x.target, ast.Attribute) and x.target.attr == c]
+                inc_ids = fb.nodes_all(incs)
+                if not (inc_ids and all(fb.cfg.must_pass(inc_ids, fb.cfg.exit, start=i) for i in fb.nodes(site))):
+                    why = ("a caller that looks the mutex up (`%s`, %s) is not counted as a user (`.%s`) before the table lock is given back: while it is "
+                           "queued on the mutex the count does not include it" % (A.short(fb.stmt_of(site) or site, 50), fb.where(site), c))
+                    break
+            if why:
+                break
+        if why is None:
+            return None
+    return why
+
+
+def check_mutex_lifetime(ck, R):
+    ck.rule(R, "one mutex per invocation for as long as a caller may be using it: an entry of the per-invocation mutex table never leaves it, "
+               "or leaves it only when a count of its users, kept under the table lock, says that nobody has looked it up and not finished", 1)
+    mod = ck.repo.module("runner_local")
+    table, locks = invocation_mutex_table(ck, mod)
+    v = mod.assigns.get(table)
+    weak = isinstance(v, ast.Call) and "Weak" in (A.call_attr(v) or "")
+    problems = []
+    if weak:
+        problems.append((None, None, "it is a weak table: the mutex goes as soon as no caller holds a reference, and with it the serialisation of callers that arrive later"))
+    keyed_ok = 0
+    for fi in mod.all_funcs():
+        rebinds = any(isinstance(n, ast.Global) and table in n.names for n in A.walk_body(fi.node))
+        for n in A.walk_body(fi.node):
+            recv_is_table = isinstance(n, ast.Call) and isinstance(n.func, ast.Attribute) and isinstance(n.func.value, ast.Name) and n.func.value.id == table
+            if recv_is_table and n.func.attr in ("clear", "popitem"):
+                problems.append((fi, n, "`%s` empties it regardless of who is using the mutexes" % A.short(n, 40)))
+            elif rebinds and isinstance(n, (ast.Assign, ast.AugAssign, ast.AnnAssign)) and \
+                    any(isinstance(t, ast.Name) and t.id == table for t in (n.targets if isinstance(n, ast.Assign) else [n.target])):
+                problems.append((fi, n, "`%s` replaces the table regardless of who is using the mutexes" % A.short(n, 40)))
+            elif (recv_is_table and n.func.attr in ("pop", "__delitem__")) or \
+                    (isinstance(n, ast.Delete) and any(isinstance(t, ast.Subscript) and isinstance(t.value, ast.Name) and t.value.id == table for t in n.targets)):
+                why = _counted_removal(ck, mod, table, locks, fi, n)
+                if why is None:
+                    keyed_ok += 1
+                else:
+                    problems.append((fi, n, why))
+    ok = not problems
+    if ok:
+        msg = "the per-invocation mutex table (%s) only grows" % table if not keyed_ok else \
+            "an entry of the per-invocation mutex table (%s) is removed only when its count of users, kept under the table lock, is zero" % table
+        at = mod.relpath
+    else:
+        (fi, n, why) = problems[0]
+        at = A.loc(fi, n) if fi is not None else mod.relpath
+        msg = ("a per-invocation mutex can leave the table (%s) while a caller is still using it%s: %s. The next caller of the same invocation is handed a "
+               "fresh mutex, does not wait, and runs the body a second time side by side with the caller that was queued on the old one"
+               % (table, " (%s, `%s`)" % (fi.qual, A.short(n, 40)) if fi is not None else "", why))
+    ck.ob(R, "runner_local.py::mutex-table-entries-outlive-their-users", ok, msg, at)
+
+
 def check(ck):
     from .memo import check_new_memo_tables
     ck.run(check_new_memo_tables, ck, "C02.M1", ('runner_local', 'runner', 'storage_base', 'storage_filesystem', 'exception', 'base', 'metadata'))
@@ -2364,6 +3256,7 @@ def check(ck):
     ck.run(check_run_record_replay, ck, "C02.R3")
     ck.run(check_replay, ck, "C02.R4")
     ck.run(check_exception_surface, ck, "C02.R4")
+    ck.run(check_exception_name_roundtrip, ck, "C02.R11")
     ck.rule("C02.R5", "forget / memento / metadata address the same key as call(): every keyed reference construction in "
                       "base.py passes the function's own context args", 6)
     sibling_reference_sites(ck, "C02.R5")
@@ -2375,7 +3268,5 @@ def check(ck):
     from .c15 import check_slots
     ck.run(check_slots, ck, "C02.R8")
     # run-once needs one mutex per invocation for as long as a caller may hold it (shared with C09.R2)
-    from .c09 import check_mutex_table_stable
-    ck.rule("C02.R9", "the per-invocation mutex table never drops a mutex", 1)
-    ck.run(check_mutex_table_stable, ck, "C02.R9")
+    ck.run(check_mutex_lifetime, ck, "C02.R9")
     ck.run(check_forget_reaches_answers, ck, "C02.R10")
